@@ -206,11 +206,15 @@ func (s *vStore) find(name string) int {
 }
 
 func (s *vStore) Store(ctx context.Context, name string, b []byte) error {
+	storeLock(s)
+	defer storeUnlock(s)
 	n := s.nStore
 	s.nStore++
 	s.started++
 	if s.yieldInStore {
+		storeUnlock(s)
 		storeGate(s)
+		storeLock(s)
 	}
 	if (s.failStore != nil && s.failStore(n, name)) || (s.failStoreBytes != nil && s.failStoreBytes(b)) {
 		s.failed++
@@ -234,6 +238,8 @@ func (s *vStore) Store(ctx context.Context, name string, b []byte) error {
 }
 
 func (s *vStore) Load(ctx context.Context, name string) ([]byte, error) {
+	storeLock(s)
+	defer storeUnlock(s)
 	n := s.nLoad
 	s.nLoad++
 	s.loadLog = append(s.loadLog, name)
